@@ -471,6 +471,8 @@ ScopeAlphabet ==       \* C11: reused local and private names, all export forms,
     ConstX("b", Num(17)), W(<<A>>), W(<<B>>), W(<<Sym("1")>>), I1("br", Sym("1")), I1("br", Sym("2")), I1("movi", A),
     [k |-> "extern", ns |-> <<"a">>], [k |-> "extern", ns |-> <<"a", "b">>], [k |-> "externall"], Inc(1), Inc(2), I0("nop"),
     Rep(2, << I1("br", Sym("1")) >>) }
+ScopeCoreAlphabet ==   \* C11: the core of ScopeAlphabet, small enough for all programs of 4 statements ('.extern all' behind reused local names, ...)
+  { Lab("1"), Lab("a"), Lab("b"), LabX("a"), Const("b", Num(13)), [k |-> "externall"], W(<<Sym("1")>>), I1("br", Sym("1")), W(<<A, B>>) }
 ScopeIncFiles == << [name |-> "i1", body |-> << W(<<A>>), Lab("b"), Lab("1"), I1("br", Sym("1")) >>],
                     [name |-> "i2", body |-> << LabX("a"), W(<<B>>) >>] >>
 
